@@ -196,7 +196,7 @@ class tm:
         for i in range(3, 6):
             if abs(self.TAA[i, 0]) > 2 * np.pi:
                 refresh = 1
-                self.TAA[i, 0] = self.TAA[i, 0] % (np.pi)
+                self.TAA[i, 0] = self.TAA[i, 0] % (2 * np.pi)
         if refresh == 1:
             self.TAAtoTM()
 
